@@ -88,11 +88,11 @@ type pend struct{ done chan string }
 type mem struct {
 	keep   *etcdx.KeepCtl
 	cancel context.CancelFunc
-	m     *member.Member
-	ctl   *etcdx.CtlKV
-	alloc id.Allocator
-	camp  *pend // parked campaign
-	chk   *pend // parked CheckLeader delete
+	m      *member.Member
+	ctl    *etcdx.CtlKV
+	alloc  id.Allocator
+	camp   *pend // parked campaign
+	chk    *pend // parked CheckLeader delete
 }
 
 type world struct {
